@@ -78,6 +78,7 @@ def correspond(ctx):
             ctx.mismatch("analog_tjm-words (stubs never called)", c, rows, model_rows, key="stubs")
         elif rows != model_rows:
             ctx.mismatch("analog_tjm-words-vs-JumpPipeline", c, rows, model_rows)
+    order_correspondence(ctx)
     # time matching alone, bit-exact, on long grids (where a relative tolerance would start to matter)
     from mqt.yaqs.core.data_structures.noise_model import NoiseModel
     from mqt.yaqs.core.methods.scheduled_jumps import has_scheduled_jump
@@ -104,6 +105,68 @@ def correspond(ctx):
         if i != (c["j"] == c["k"]):
             ctx.violation("time-match", f"has_scheduled_jump(time={c['t']!r}) is {i} for a jump scheduled at grid index {c['k']} "
                           f"(dt={c['dt']}, queried grid index {c['j']})", {"oracle": "time_match", **c})
+
+
+def applied_order_impl(L, dt, time, jumps):
+    """Which listed jumps does the REAL apply_scheduled_jumps apply at `time`, and in which order?  The operator
+    matrices are tagged by identity; opt_einsum.contract is wrapped in scheduled_jumps' namespace to log them."""
+    import types
+
+    import mqt.yaqs.core.methods.scheduled_jumps as SJ
+    from mqt.yaqs.core.data_structures.networks import MPS
+    from mqt.yaqs.core.data_structures.noise_model import NoiseModel
+    from mqt.yaqs.core.data_structures.simulation_parameters import AnalogSimParams, Observable
+
+    nm = NoiseModel([], scheduled_jumps=[{"time": t, "sites": sites, "name": "user", "matrix": np.eye(2 ** len(sites), dtype=complex)}
+                                         for (t, sites) in jumps])
+    mats = [j["matrix"] for j in nm.scheduled_jumps]
+    order = []
+    real_oe = SJ.oe
+
+    def contract(expr, a, b, *rest, **kw):
+        for k, m in enumerate(mats):
+            if a is m:
+                order.append(k)
+        return real_oe.contract(expr, a, b, *rest, **kw)
+
+    SJ.oe = types.SimpleNamespace(contract=contract)
+    try:
+        p = AnalogSimParams([Observable("z", 0)], elapsed_time=10 * dt, dt=dt, show_progress=False)
+        SJ.apply_scheduled_jumps(MPS(L, state="x+"), nm, time, p)
+    finally:
+        SJ.oe = real_oe
+    return order
+
+
+def order_correspondence(ctx):
+    cases, exprs, impl = [], [], []
+    for i in range(ctx.scale(120, 2000)):
+        L = int(ctx.rng.integers(2, 5))
+        dt = float(ctx.rng.choice(DTS[:8]))
+        k = int(ctx.rng.integers(1, 8))
+        nj = int(ctx.rng.integers(1, 5))
+        jumps = []
+        for _ in range(nj):
+            kk = k if ctx.rng.random() < 0.7 else int(ctx.rng.integers(1, 8))
+            if ctx.rng.random() < 0.5:
+                sites = [int(ctx.rng.integers(0, L))]
+            else:
+                a = int(ctx.rng.integers(0, L - 1))
+                sites = [a, a + 1]
+            jumps.append((float(kk * dt), sites))
+        t = float(dt * k)
+        impl.append(applied_order_impl(L, dt, t, jumps))
+        ms = g_list([f"has_jump_at {g_float(jt)} {g_float(t)} {g_float(dt)}" for (jt, _) in jumps])
+        exprs.append(f"applied_at {ms} 0%nat")
+        cases.append(dict(L=L, dt=dt, k=k, jumps=jumps))
+    vals = common.coq_eval_sharded(HEADER, exprs, tag="c14o")
+    for c, i, m in zip(cases, impl, vals):
+        sizes = [len(s) for _, s in c["jumps"]]
+        ctx.case(nontrivial_key=("order", c["dt"], c["k"], tuple((t, tuple(s)) for t, s in c["jumps"])) if len(i) >= 2 and len(set(sizes)) > 1 else None,
+                 validated=True)
+        ctx.count("apply_order")
+        if i != m:
+            ctx.mismatch("apply_scheduled_jumps application order vs JumpPipeline.applied_at", c, i, m)
 
 
 # ---- the property, directly -----------------------------------------------------------------------------------
@@ -160,7 +223,24 @@ def jump_oracle(args):
     return None
 
 
+DIRECTED = [
+    [(2, [0, 1], "crosstalk_xy"), (2, [1], "lowering")],
+    [(2, [1], "lowering"), (2, [0, 1], "crosstalk_xy")],
+    [(1, [0], "raising"), (1, [0], "x")],
+    [(3, [1, 2], "crosstalk_zx"), (3, [1], "raising"), (3, [2], "y")],
+]
+
+
 def search(ctx):
+    for k, jumps in enumerate(DIRECTED):
+        L = 3
+        for order in (1, 2):
+            args = dict(order=order, L=L, dt=0.02, k_total=4, jumps=jumps, state="x+")
+            why = jump_oracle(args)
+            ctx.case(nontrivial_key=("directed", k, order))
+            ctx.count("dense_directed")
+            if why:
+                ctx.violation(f"jump-dense:equal-times", why, {"oracle": "jump", "args": args})
     n = ctx.scale(10, 80)
     for i in range(n):
         L = 2 if i % 3 else 3
